@@ -353,6 +353,51 @@ def run_sdk(case):
     return trace, (fails[0] if fails else None)
 
 
+def probe_synthetic(rng):
+    """The generator against SYNTHETIC providers that know a whole run of the candidates (ns + quoted proposal,
+    with or without _NNNN) - far more than any store of a test holds, also beyond the four digits of the counter.
+    The postconditions of C13_generate_id hold for every provider that knows finitely many identifiers.
+    Returns a list of (signature code, message, replay dict)."""
+    from basyx.aas import model
+    from basyx.aas.util.identification import NamespaceIRIGenerator
+
+    class Synthetic(model.AbstractObjectProvider):
+        def __init__(self, known):
+            self.known = known          # predicate on identifiers
+            self.dummy = model.Submodel("urn:dummy")
+
+        def get_identifiable(self, identifier):
+            if self.known(identifier):
+                return self.dummy
+            raise KeyError(identifier)
+
+    failures = []
+    for ns in ("http://x/", "x:y="):
+        for proposal in (None, "p", "a b"):
+            q = _quote(proposal)
+            for n_known in (0, 1, 7, 9999, 10000, 10001, 10000 + rng.randint(2, 3000), 20005):
+                def cand(c):
+                    return ns + q + ("_" if q else "") + "{:04d}".format(c) if (c or not q) else ns + q
+                known_set = {cand(c) for c in range(n_known)}
+                g = NamespaceIRIGenerator(ns, Synthetic(known_set.__contains__))
+                for call in range(2):          # the second call starts from the cached counter
+                    rp = {"synthetic": {"namespace": ns, "proposal": proposal, "known_candidates": n_known, "call": call}}
+                    try:
+                        iri = guarded(lambda: g.generate_id(proposal), 20.0)
+                    except Timeout:
+                        failures.append(("no-termination", "generate_id did not return although the provider knows "
+                                         "finitely many identifiers", rp))
+                        break
+                    if not isinstance(iri, str) or not iri.startswith(ns):
+                        failures.append(("outside-namespace", "generated identifier does not start with the namespace", rp))
+                    elif iri in known_set:
+                        failures.append(("known-id", f"generated identifier is one the provider contains (the provider knows "
+                                         f"the first {n_known} candidates)", rp))
+                    elif iri != cand(n_known):
+                        failures.append(("not-first-free", "generated identifier is not the first free candidate", rp))
+    return failures
+
+
 # ------------------------------------------------------------------ case generation
 
 def gen_theme(rng):
@@ -594,7 +639,10 @@ def run(chk):
             if sig0 not in reported and len(reported) < 8:      # shrink one case per failure class
                 reported.add(sig0)
                 small = shrink_ops(case, lambda c: (run_sdk(c)[1] or (0, 0, 0))[1:3] == fail[1:3])
-                k, kind, code, msg = run_sdk(small)[1]
+                again = run_sdk(small)[1]
+                if again is None:       # not reproducible in isolation
+                    small, again = case, fail
+                k, kind, code, msg = again
                 chk.fail(f"C13:{kind}:{code}", msg, {"case": small, "failing_step": k,
                                                      "how": "tools/c13.py run_sdk(case) -> (trace, failure)"})
         terms.append(coq_case(case, trace))
@@ -606,6 +654,10 @@ def run(chk):
             break
         if len(chk.samples) < 4 and len(ops) >= 8 and case["gens"]:
             chk.samples.append({"case": case, "sdk_observation_last_step": trace[-1][:3]})
+    # synthetic providers knowing long runs of candidates (oracle only; the theorem covers every finite provider)
+    for code, msg, rp in probe_synthetic(rng)[:3]:
+        chk.fail(f"C13:generate_id:{code}", msg, dict(rp, how="tools/c13.py probe_synthetic(rng)"))
+    chk.count("synthetic_provider_probes", 2 * 3 * 8 * 2)
     # _quote_iri_segment on its own
     qin = quote_cases(rng, 300 if quick else 3000)
     qterms = ["(" + coq_list(str(c) for c in s.encode("utf-8")) + ", "
@@ -676,6 +728,11 @@ def run(chk):
 def replay(path):
     r = json.load(open(path))
     rp = r.get("replay") or {}
+    if "synthetic" in rp:
+        import random
+        fl = probe_synthetic(random.Random(0))
+        print("synthetic provider probes:", fl[:3])
+        return 1 if fl else 0
     if "case" in rp:
         tr, fail = run_sdk(rp["case"])
         print("oracle:", fail)
